@@ -24,7 +24,10 @@ PoolCore == <<
     N("Sum", << CSE0(S1), CSE0(S1), y >>),            \* one wrapper twice
     Look(B("Sub", tt, K1), "p"),                      \* a lookup of a subscript (dependency flags)
     N("BitAnd", << y, K4 >>),
-    N("BitAnd", << y, K4f >>)                         \* evaluates to an error, its == twin does not
+    N("BitAnd", << y, K4f >>),                        \* evaluates to an error, its == twin does not
+    \* round 8: UNEQUAL keys whose hashes collide (CPython: hash(-1) = hash(-2), and a node's hash
+    \* is built from its fields' hashes) - a table must still compare the keys themselves
+    N("Sum", << x, KI(-1) >>), N("Sum", << x, KI(-2) >>)
 >>
 PoolMore == <<
     y, K0, K(FltV(1, 1)),
